@@ -68,10 +68,12 @@ def dtd_text(c):
             lines.append(f"<!ELEMENT {n} EMPTY>")
         elif t == "Kid":
             lines.append(f"<!ELEMENT {n} (x,y?)>")
+        elif t == "Rec":
+            lines.append(f"<!ELEMENT {n} (x,{n}?)>")
         else:
             lines.append(f"<!ELEMENT {n} (#PCDATA)>")
-    if any(t == "Kid" for t in els.values()):
-        lines += ["<!ELEMENT x (#PCDATA)>", "<!ELEMENT y (#PCDATA)>"]
+    if any(t in ("Kid", "Rec") for t in els.values()):
+        lines += ["<!ELEMENT x (#PCDATA)>"] + (["<!ELEMENT y (#PCDATA)>"] if any(t == "Kid" for t in els.values()) else [])
     for a in c["attrs"]:
         mode = {"REQUIRED": "#REQUIRED", "IMPLIED": "#IMPLIED", "FIXED": f'#FIXED "{a["value"]}"', "DEFAULT": f'"{a["value"]}"'}[a["mode"]]
         lines.append(f"<!ATTLIST Root {a['name']} {a['tp']} {mode}>")
